@@ -242,6 +242,143 @@ async fn scenario(q: usize, before_stall: bool, id: u64) -> Out {
 }
 
 
+/// The peers that queued up on the stalled topic vanish *abruptly* (their packets stop; no close is ever sent — a
+/// killed client, a cut network). The server only notices through its idle timeout (2 s here). Topic B must work
+/// afterwards as before.
+async fn queued_peers_vanish(q: usize, id: u64) -> Out {
+    let certs = match gen_certs() {
+        Ok(c) => c,
+        Err(e) => return Out::Inconclusive(format!("certs: {e}")),
+    };
+    let server = {
+        let args = server_args(&certs, "127.0.0.1:0", 2000);
+        match selium_server::server::Server::try_from(args) {
+            Ok(sv) => {
+                let addr = sv.addr().unwrap();
+                let task = tokio::spawn(async move {
+                    let _ = sv.listen().await;
+                });
+                (addr, task)
+            }
+            Err(e) => return Out::Inconclusive(format!("server: {e}")),
+        }
+    };
+    let addr = server.0;
+    let topic_a = format!("/stallv{}/topic-a", id);
+    let topic_b = format!("/freev{}/topic-b", id);
+    let tn_a = TopicName::try_from(topic_a.as_str()).unwrap();
+    let stall_conn = match raw_connect(addr, &certs).await {
+        Ok(c) => c,
+        Err(e) => return Out::Inconclusive(format!("raw connect: {e}")),
+    };
+    let (_stalled, r) = match stall_conn.open(Frame::RegisterSubscriber(SubscriberPayload { topic: tn_a.clone(), retention_policy: 0, operations: vec![] }), Duration::from_secs(10)).await {
+        Ok(x) => x,
+        Err(e) => return Out::Inconclusive(format!("stalled subscriber: {e}")),
+    };
+    if r != Some(Frame::Ok) {
+        return Out::Inconclusive(format!("stalled subscriber answered {:?}", r));
+    }
+    // keep the stalled peer's own connection alive by reading nothing but pinging (quinn keep-alive 2 s is too slow for
+    // a 2 s idle timeout): a second stream on it is polled in the background
+    let keep_alive_conn = stall_conn.conn.clone();
+    let pinger = tokio::spawn(async move {
+        loop {
+            if let Ok(mut s) = keep_alive_conn.open_uni().await {
+                let _ = s.write_all(b"x").await;
+                let _ = s.finish().await;
+            }
+            tokio::time::sleep(Duration::from_millis(400)).await;
+        }
+    });
+    let pc = match lib_client(&addr.to_string(), &certs, None).await {
+        Ok(c) => c,
+        Err(e) => return Out::Inconclusive(format!("connect: {e}")),
+    };
+    let mut flooder = match pc.publisher(&topic_a).with_encoder(BytesCodec).open().await {
+        Ok(p) => p,
+        Err(e) => return Out::Inconclusive(format!("flooding publisher: {e}")),
+    };
+    let chunk = vec![0x42u8; 32 * 1024];
+    let t0 = Instant::now();
+    let mut blocked = false;
+    let mut sent = 0u64;
+    while t0.elapsed() < Duration::from_secs(40) {
+        match tokio::time::timeout(Duration::from_millis(1500), flooder.send(chunk.clone())).await {
+            Ok(Ok(())) => sent += 1,
+            Ok(Err(e)) => return Out::Inconclusive(format!("flooding publisher failed: {e}")),
+            Err(_) => {
+                blocked = true;
+                break;
+            }
+        }
+    }
+    if !blocked {
+        pinger.abort();
+        return Out::Inconclusive(format!("precondition not reached: publisher never blocked after {} × 32 KiB", sent));
+    }
+    // q registrations queue up on A through a relay …
+    let relay = match super::c12::Relay::start(addr).await {
+        Ok(r) => r,
+        Err(e) => return Out::Inconclusive(format!("relay: {e}")),
+    };
+    let mut conns = vec![];
+    let mut streams = vec![];
+    let mut left = q;
+    while left > 0 {
+        let c = match raw_connect(relay.addr, &certs).await {
+            Ok(c) => c,
+            Err(_) => break,
+        };
+        let batch = left.min(80);
+        let mut unanswered = 0;
+        for _ in 0..batch {
+            match c.open(Frame::RegisterSubscriber(SubscriberPayload { topic: tn_a.clone(), retention_policy: 0, operations: vec![] }), Duration::from_secs(3)).await {
+                Ok((s2, _)) => streams.push(s2),
+                Err(_) => {
+                    unanswered += 1;
+                    if unanswered >= 2 {
+                        break;
+                    }
+                }
+            }
+        }
+        left -= batch;
+        conns.push(c);
+    }
+    // … and vanish: nothing of theirs reaches the server any more, nothing of the server's reaches them
+    relay.blackhole_existing();
+    tokio::time::sleep(Duration::from_millis(4200)).await;
+    let t1 = Instant::now();
+    let fut = async {
+        let cb = lib_client(&addr.to_string(), &certs, None).await.map_err(|e| format!("connect for topic B: {e}"))?;
+        let mut sub = cb.subscriber(&topic_b).with_decoder(BytesCodec).open().await.map_err(|e| format!("open subscriber on B: {e}"))?;
+        let cb2 = lib_client(&addr.to_string(), &certs, None).await.map_err(|e| format!("connect for topic B: {e}"))?;
+        let mut publ = cb2.publisher(&topic_b).with_encoder(BytesCodec).open().await.map_err(|e| format!("open publisher on B: {e}"))?;
+        let mut n = 0u8;
+        loop {
+            n = n.wrapping_add(1);
+            publ.send(vec![b'B', n]).await.map_err(|e| format!("send on B: {e}"))?;
+            if let Ok(Some(Ok(v))) = tokio::time::timeout(Duration::from_millis(250), sub.next()).await {
+                if v.first() == Some(&b'B') {
+                    return Ok::<(), String>(());
+                }
+            }
+        }
+    };
+    let res = tokio::time::timeout(Duration::from_secs(12), fut).await;
+    let took = t1.elapsed().as_millis();
+    pinger.abort();
+    relay.stop();
+    server.1.abort();
+    drop(streams);
+    drop(conns);
+    match res {
+        Ok(Ok(())) => Out::Held { b_roundtrip_ms: took, queued_ok: q },
+        Ok(Err(e)) => Out::Violated("other-topic-failed/after-queued-peers-vanished".into(), format!("topic A stalled, {} registrations queued on it, then the queued peers vanished without closing (server idle timeout 2 s, 4.2 s waited): topic B could not be used: {}", q, e)),
+        Err(_) => Out::Violated("other-topic-blocked/after-queued-peers-vanished".into(), format!("topic A stalled, {} registrations queued on it, then the queued peers vanished without closing: no round trip on topic B within 12 s", q)),
+    }
+}
+
 /// A peer of topic A that gives the server no flow-control credit at all registers on A with the *other*
 /// messaging pattern: the server has to write a refusal that this peer never takes delivery of. Topic B
 /// must still work.
@@ -558,6 +695,24 @@ pub fn run(rep: &mut StageReport, tier: &str, _seed: u64) {
             }
             Ok(Out::Inconclusive(why)) => rep.inconclusive(&why),
             Err(_) => rep.inconclusive("watchdog: zero-window scenario did not finish within 90 s"),
+        }
+    }
+    for (k, q) in (if thorough { vec![160usize, 300] } else { vec![160usize] }).into_iter().enumerate() {
+        rep.evaluations += 1;
+        let rt = runtime(6);
+        let out = rt.block_on(async { tokio::time::timeout(Duration::from_secs(150), queued_peers_vanish(q, 300 + k as u64)).await });
+        drop(rt);
+        match out {
+            Ok(Out::Held { b_roundtrip_ms, .. }) => {
+                rep.distinct.insert(crate::common::mix(0x7A41, q as u64));
+                rep.sample(json!({"scenario": format!("{} registrations queued on the stalled topic through a relay, then black-holed (no close); server idle timeout 2 s", q), "topic_B_round_trip_ms": b_roundtrip_ms as u64}));
+            }
+            Ok(Out::Violated(sig, detail)) => {
+                let replay = write_replay("C17", &sig, q as u64, json!({"property": "C17", "detail": detail}));
+                rep.violation(Violation { signature: format!("C17/server/{}", sig), detail, replay });
+            }
+            Ok(Out::Inconclusive(why)) => rep.inconclusive(&why),
+            Err(_) => rep.inconclusive("watchdog: vanishing-peers scenario did not finish within 150 s"),
         }
     }
     for (k, (n_pubs, finishing)) in (if thorough { vec![(4usize, false), (10, false), (16, false), (1, true), (3, true), (10, true), (101, false), (103, false)] } else { vec![(10usize, false), (2, true), (101, false)] }).into_iter().enumerate() {
